@@ -3,6 +3,7 @@
 from __future__ import annotations
 
 import importlib
+import os
 import itertools
 import sys
 import threading
@@ -137,6 +138,9 @@ def scenario(spec):
                     return h.get_backend()
                 if c == "has_backend":
                     return h.has_backend()
+                if c == "has_backend-absent":
+                    # a failed probe (documented: returns False) must leave nothing behind that stops other threads
+                    return h.has_backend("builtin") if os.environ.get("PASSLIB_BUILTIN_BCRYPT") != "enabled" else None
                 raise KeyError(c)
 
             return [lambda c=c: body(c) for c in calls]
@@ -381,6 +385,8 @@ def scenarios(tier):
         {"kind": "hasher", "name": "des_crypt", "calls": ["hash", "verify-wrong"]},
         {"kind": "hasher", "name": "bcrypt", "calls": ["verify", "hash"]},
         {"kind": "hasher", "name": "bcrypt_sha256", "calls": ["verify", "verify"]},
+        {"kind": "hasher", "name": "bcrypt", "calls": ["has_backend-absent", "hash"]},
+        {"kind": "hasher", "name": "bcrypt_sha256", "calls": ["has_backend-absent", "verify"]},
         {"kind": "b64", "calls": ["encode", "decode"]},
         {"kind": "b64", "calls": ["charmap", "int6"], "big": True},
         {"kind": "registry", "name": "phpass", "calls": ["getattr", "get"]},
@@ -452,7 +458,11 @@ def t_hyp_schedules(rec, seed, tier, index):
     n = len(spec["calls"])
     label = f"{spec['kind']}/{spec.get('name', '')}".rstrip("/")
     make, canon, state = scenario(spec)
-    res, steps, r0 = count_steps(make, TRACKED, list(range(n)))
+    try:
+        res, steps, r0 = count_steps(make, TRACKED, list(range(n)))
+    except Stuck as e:
+        rec.fail(f"C19/stuck/{label}", "the threads run one after the other got stuck (a lock left held by a finished call?)", "schedule", {"spec": spec, "order": list(range(n)), "preempt": {}}, str(e), "completion", soft=True)
+        return
     cnt = 40 if tier == "quick" else 600
 
     @st.composite
